@@ -247,20 +247,26 @@ def stepExportTO (s : Script α) (o : Out) (st : St α) : R α :=
 `K[0]` without the speed-of-sound flag after patches/C39-prediction-operator-flag.diff -/
 def predK (v : Variant) (s : Script α) : α := if v.predOnKe then effK0 s.k0 else s.k0
 
-/-- the `if (Ke < -0.25) { ... }` block, `computePredictionOperator` included -/
-def stepPred (v : Variant) (s : Script α) (st : St α) : R α :=
-  (if flagged s.k0 then
-      (stepSosCompute s false st).bind fun st => .next (log st (.write .sos))
-    else .next st).bind fun st =>
+/-- prediction branch: `if (bs) { speed_of_sound = b.computeSpeedOfSound(massdensity(*(d.s0.mass_density))); }` -/
+def stepPredSos (s : Script α) (st : St α) : R α :=
+  if flagged s.k0 then
+    (stepSosCompute s false st).bind fun st => .next (log st (.write .sos))
+  else .next st
+
+/-- prediction branch: the `if constexpr (!hasPredictionOperator)` test and `computePredictionOperator` -/
+def stepPredOp (v : Variant) (s : Script α) (st : St α) : R α :=
   if !s.traits.hasPred then .ret (-1) { st with msg := .noPredictionOperator }
   else
-    let smt := predSmt (predK v s)
-    let st := log st (.pred s.smflag smt)
+    let st := log st (.pred s.smflag (predSmt (predK v s)))
     match s.pred.thrown .pred with
     | some m => .thr m st
     | none =>
       if s.pred = .failure then .ret (-1) st
       else (stepExportTO s .kpred st).bind fun st => .ret 1 st
+
+/-- the `if (Ke < -0.25) { ... }` block, `computePredictionOperator` included -/
+def stepPred (v : Variant) (s : Script α) (st : St α) : R α :=
+  (stepPredSos s st).bind (stepPredOp v s)
 
 /-- `computeAPrioriTimeStepScalingFactor`, `integrate`, `computeAPosterioriTimeStepScalingFactor` -/
 def stepIntegrate (s : Script α) (smt : SMType) (st : St α) : R α :=
@@ -342,10 +348,12 @@ structure Result (α : Type) where
   ret : Int
   st : St α
 
+/-- `Behaviour b(d); b.setOutOfBoundsPolicy(p);` -/
+def st0 (s : Script α) : St α := { ev := [.ctor, .pol s.policy], rdt := s.rdt0, msg := .unset }
+
 /-- `mfront::gb::integrate<Behaviour>(d, f, p)` -/
 def integrate (v : Variant) (s : Script α) : Result α :=
-  let st0 : St α := { ev := [.ctor, .pol s.policy], rdt := s.rdt0, msg := .unset }
-  match body v s st0 with
+  match body v s (st0 s) with
   | .next st => ⟨if st.rdt < (0.99 : α) then 0 else 1, st⟩
   | .ret r st => ⟨r, st⟩
   | .thr m st =>
